@@ -181,7 +181,9 @@ def make_uod(run: "Run", totalizer=True):
          .with_command(name="Hang", exec_fn=hang, init_fn=init, finalize_fn=fin, arg_parse_fn=None)
          .with_command(name="OvA", exec_fn=ov, init_fn=init, finalize_fn=fin, arg_parse_fn=None)
          .with_command(name="OvB", exec_fn=ov, init_fn=init, finalize_fn=fin, arg_parse_fn=None)
+         .with_command(name="OvC", exec_fn=ov, init_fn=init, finalize_fn=fin, arg_parse_fn=None)
          .with_command_overlap(["OvA", "OvB"])
+         .with_command_overlap(["OvB", "OvC"])       # OvB is in two overlap lists
          .with_command_regex_arguments("SetOut", RegexNumber(units=None), setout, init, fin)
          .with_command_regex_arguments("Set1", RegexNumber(units=None), set1, init, fin)
          .with_command_regex_arguments("Valve", RegexCategorical(exclusive_options=["Open", "Closed"]), valve, init, fin)
